@@ -209,7 +209,8 @@ pub fn check(ctx: &Ctx, st: &mut Stats, c: &Case) {
 }
 
 fn hostile_starts() -> Vec<NaiveDate> {
-    let mut v = vec![];
+    // the range API has no date restriction of its own: calendar-reform days, the first and last years of the Hijri domain
+    let mut v = vec![ymd(1582, 10, 1), ymd(1582, 10, 10), ymd(1582, 10, 14), ymd(1582, 10, 15), ymd(1, 1, 1), ymd(9999, 10, 20), ymd(1752, 9, 1)];
     for y in [1600, 1899, 1900, 2000, 2023, 2024, 2100, 2399] {
         for (m, d) in [(1, 1), (1, 31), (2, 28), (3, 1), (12, 31), (12, 1), (6, 30)] {
             v.push(ymd(y, m, d));
@@ -233,7 +234,7 @@ pub fn run(ctx: &Ctx, st: &mut Stats) {
                 continue;
             }
             let e = from_ce(ce(s) + span as i32 - 1);
-            if ce(e) > day_hi() + 400 {
+            if ce(e) > ce(ymd(9999, 12, 31)) {
                 continue;
             }
             // the range API itself on a rotating subset (all reversed/empty ones on a thinner subset: each costs a process)
@@ -282,7 +283,12 @@ pub fn run(ctx: &Ctx, st: &mut Stats) {
     // history diversity: month-after-month style chains — a range call followed, on the same thread, by a range
     // that starts on (or right after) the previous range's last date for a DIFFERENT location
     let nch = ctx.quota(400, 20_000);
-    for _ in 0..nch {
+    for kk in 0..nch {
+        if kk % 97 == 5 {
+            // fault injection: range calls that panic (a Params value with a missing key, calendar edge), caught
+            super::out_of_domain_calls(3);
+            st.count("fault_injection.out_of_domain_call_groups");
+        }
         let s0 = from_ce(r.int(day_lo() as i64, day_hi() as i64 - 400) as i32);
         let len1 = r.int(1, 60);
         let e0 = from_ce(ce(s0) + len1 as i32 - 1);
